@@ -41,7 +41,7 @@ def load_registry():
     R.tasks = []
     for m in contracts.ALL:
         mod = importlib.import_module('contracts.' + m)
-        mod.register(R)
+        getattr(mod, '_reg_all', mod.register)(R)
     return R
 
 
@@ -52,9 +52,10 @@ def props_of_obl(name, contract_props):
 
 # ----------------------------------------------------------------------------- workers
 def work_contract(job):
-    repo, cid, tier, want_prop = job
+    repo, cid, tier, want_prop = job[:4]
+    shard, nshards = (job[4], job[5]) if len(job) > 4 else (0, 1)
     t0 = time.time()
-    rec = {'task': cid, 'kind': 'contract', 'obls': [], 'unsupported': None, 'error': None}
+    rec = {'task': cid, 'kind': 'contract', 'obls': [], 'unsupported': None, 'error': None, 'shard': shard, 'nshards': nshards}
     try:
         from pyvc.engine import Engine
         from pyvc.core import Unsupported
@@ -83,7 +84,9 @@ def work_contract(job):
         rec['path_outcomes'] = sorted(set(p['outcome'] for p in res['paths']))
         rec['gen_s'] = res['gen_s']
         rec['trivial'] = eng.trivial
-        for o in res['obls']:
+        for oi, o in enumerate(res['obls']):
+            if oi % nshards != shard:
+                continue
             d = discharge(o, tier, second_opinion=(tier == 'thorough'))
             orec = {'name': o.name, 'kind': o.kind, 'status': d['status'], 'backend': d['backend'], 'seconds': round(d['seconds'], 4),
                     'quantified': d['quantified'], 'path': o.path_id, 'props': props_of_obl(o.name, c.props), 'size': o.size(),
@@ -118,7 +121,7 @@ def work_contract(job):
             rec['obls'].append(orec)
         # ---- run-time cross-check of the contract on the real function (small random inputs) and, for obligations
         # left open, search for a replayable failing input
-        if not c.opts.get('no_search'):
+        if not c.opts.get('no_search') and shard == 0:
             open_ = [o for o in rec['obls'] if o['status'] != 'proved' and not (o.get('replay') or {}).get('verdict') == 'violates']
             n = (150 if tier == 'quick' else 1500) if open_ else (25 if tier == 'quick' else 300)
             seed = int(os.environ.get('VERIF_SEED', '0') or 0)
@@ -223,7 +226,9 @@ def main(argv=None):
             continue
         names = ' '.join(n for n, _ in c.ensures) + ' ' + ' '.join(r.name for r in c.raises)
         if prop in c.props or prop in re.findall(r'C\d\d', names):
-            jobs_c.append((a.repo, c.id, a.tier, prop))
+            ns = int(c.opts.get('shards', 1))
+            for k in range(ns):
+                jobs_c.append((a.repo, c.id, a.tier, prop, k, ns))
     for t in R.tasks:
         if prop in t.props:
             if t.kind == 'bounded' and a.tier not in t.tiers:
